@@ -221,7 +221,18 @@ def _case(draw, pid, tier):
         "short_io": draw(st.booleans()),
         "error_path": draw(st.integers(0, 3)) == 0,
         "fault": None,
+        # which of the two reconcile processes write to stdout (no --output option)
+        "out_stdout": [draw(st.integers(0, 3)) == 0, draw(st.integers(0, 3)) == 0],
+        "prior": None,
     }
+    if draw(st.integers(0, 3)) == 0:
+        # an earlier invocation of the tool in the same interpreter (a caller that uses the
+        # entry point as a function) with other cost options and possibly another algorithm
+        case["prior"] = {
+            "costs": draw(e1_solver._costs(labelled)),
+            "algo": draw(st.sampled_from(algos)),
+            "draw": draw(st.booleans()),
+        }
     if draw(st.integers(0, 3)) == 0:
         case["fault"] = {
             "kind": draw(st.sampled_from(["ENOSPC", "EPIPE", "EIO"])),
@@ -300,17 +311,18 @@ def expected_names(nested, given, prefix):
 COST_RE = re.compile(r"Minimum cost: (\S+)")
 
 
-def cost_args(case):
-    costs = case["spec"]["costs"]
+def cost_args(case, costs=None, how=None):
+    costs = case["spec"]["costs"] if costs is None else costs
+    how = how or case["cost_args"]
     flags = {"spe": "--cost-spe", "dup": "--cost-dup", "hgt": "--cost-hgt",
              "floss": "--cost-floss", "sloss": "--cost-sloss"}
     default = {"spe": 0, "dup": 1, "hgt": 1, "floss": 1, "sloss": 1}
-    if case["cost_args"] == "none":
+    if how == "none":
         return [], default
     chosen = dict(default)
     args = []
     for i, (k, flag) in enumerate(flags.items()):
-        if case["cost_args"] == "some" and i % 2:
+        if how == "some" and i % 2:
             continue
         v = costs[k]
         args += [flag, "float('inf')" if v == "inf" else str(v)]
@@ -365,7 +377,9 @@ def execute(case, focus=None):
             stdin_text = json.dumps(doc)
         else:
             argv += ["--input", "in.json"]
-        argv += ["--output", out_path, algo, "--solutions", policy] + extra
+        if out_path != "<stdout>":
+            argv += ["--output", out_path]
+        argv += [algo, "--solutions", policy] + extra
         fs.fault = None
         if with_fault:
             fs.fault = fault["kind"]
@@ -378,6 +392,22 @@ def execute(case, focus=None):
         return proc, fired
 
     binary = ref.is_binary(spec["object"]) and ref.is_binary(spec["species"])
+    prior = case.get("prior")
+    if prior:
+        # what this invocation does is not checked here (other runs check it): it only has
+        # to have happened, in the same interpreter, before the invocations that are checked
+        pextra, _ = cost_args(case, prior["costs"], "all")
+        if pextra:
+            argv = ["reconcile", "--input", "in.json", "--output", "prior.json", prior["algo"],
+                    "--solutions", "all"] + pextra
+            pproc = run_process(fs, argv, "", case["orders"][3], 0)
+            run.probe("prior_invocation_other_costs")
+            if prior["draw"] and pproc.status == 0 and fs.text("prior.json"):
+                fs.put("prior1.json", fs.text("prior.json").split("\n")[0] + "\n")
+                run_process(fs, ["draw", "--input", "prior1.json", "--output", "prior.tex"], "",
+                            case["orders"][2], 0)
+            run.event("prior", pproc.status,
+                      hashlib.sha256(fs.text("prior.json").encode()).hexdigest())
     rin = None
     results = {}
     no_solution = False
@@ -386,8 +416,11 @@ def execute(case, focus=None):
         no_solution = not ref.root_orders(seqs, set().union(*map(set, seqs)))
     for policy, order in (("all", case["orders"][0]), ("any", case["orders"][1])):
         with_fault = fault is not None and fault["target"] == policy
-        out_path = f"{policy}.json"
+        to_stdout = bool((case.get("out_stdout") or [0, 0])[policy == "any"])
+        out_path = "<stdout>" if to_stdout else f"{policy}.json"
         proc, fired = reconcile(policy, out_path, order, with_fault)
+        if to_stdout:
+            run.probe("reconcile_to_stdout")
         where = f"reconcile {algo} --solutions {policy}"
         faulted = any(k in fired for k in ("ENOSPC", "EPIPE", "EIO"))
         for k, n in fired.items():
@@ -398,7 +431,7 @@ def execute(case, focus=None):
             run.nontrivial = True
         if CLOCK.jumps:
             run.fault("F5_clock_jump", CLOCK.jumps)
-        text = fs.text(out_path)
+        text = proc.stdout if to_stdout else fs.text(out_path)
         lines = text.split("\n")
         complete, tail = lines[:-1], lines[-1]
         if not faulted and no_solution:
@@ -467,6 +500,15 @@ def execute(case, focus=None):
                                   f"indices; input names {given}")
                 if auto:
                     run.probe("automatic_names_checked")
+            # the problem written back is the problem that was asked (cost options included)
+            written = {k.name: float(v) for k, v in out.input.costs.items()}
+            asked = {"SPECIATION": costs["spe"], "DUPLICATION": costs["dup"],
+                     "HORIZONTAL_TRANSFER": costs["hgt"], "FULL_LOSS": costs["floss"],
+                     "SEGMENTAL_LOSS": costs["sloss"]}
+            run.check(written == {k: float(v) for k, v in asked.items()}, ("C12",),
+                      "C12.costs-not-as-requested",
+                      lambda: f"{where}: line {ln} carries unit costs {written}, the command line "
+                              f"asked for {asked}")
             # cost
             on, sn = canon.ete_to_nested(otree), canon.ete_to_nested(stree)
             if ref.is_binary(on) and ref.is_binary(sn):
@@ -576,7 +618,9 @@ def describe(pid):
                 "inferred from <species>_<id>, optionally lower-cased prefix; optional "
                 "syntenies) + algorithm + cost options + a pipeline of simulated processes on "
                 "one simulated file system: reconcile --solutions all and --solutions any as "
-                "separate processes with different set-iteration seeds (input by file or stdin), "
+                "separate processes with different set-iteration seeds (input by file or stdin, "
+                "output to a file or to stdout), optionally after an earlier invocation with "
+                "other cost options in the same interpreter, "
                 "draw on the first written lines (file / stdout+tikz / pdf through the simulated "
                 "TeX peer), the error path, optional short raw reads/writes and one errno fault "
                 "(ENOSPC / EPIPE on the output, EIO on the input) in one of the processes. "
@@ -599,5 +643,6 @@ def describe(pid):
                             "F3_ENOSPC", "F3_EPIPE", "F3_EIO", "F5_clock_jump", "draw_file",
                             "draw_stdout", "draw_pdf", "partially_named", "unnamed_ancestors",
                             "species_inferred_from_names", "stdin_input", "polytomy_input",
-                            "prefix_checked"],
+                            "prefix_checked", "reconcile_to_stdout",
+                            "prior_invocation_other_costs"],
     }
